@@ -188,11 +188,16 @@ func powSubjects(nNonces int) []*powSubject {
 	return subs
 }
 
+// powReplay carries 64-bit values as decimal strings (results travel through JSON numbers, i.e. float64, otherwise).
 type powReplay struct {
 	Part  string `json:"part"`
-	D     uint64 `json:"d"`
-	Nonce uint64 `json:"nonce"`
+	D     string `json:"d"`
+	Nonce string `json:"nonce"`
 	Subj  int    `json:"subj"`
+}
+
+func mkPowReplay(d, nonce uint64, subj int) powReplay {
+	return powReplay{Part: "pow", D: fmt.Sprint(d), Nonce: fmt.Sprint(nonce), Subj: subj}
 }
 
 func le8(v uint64) []byte {
@@ -211,6 +216,11 @@ func powMismatch(r *xs.Result, si int, s *powSubject, d, nonce uint64, code, ref
 	work := refWork(nonce, &s.dh)
 	what := fmt.Sprintf("pow.CheckPoWNonce(address=%v previous=%v difficulty=%d nonce(LE)=%d) = %v but work=%d (0x%016x) vs reference threshold 2^64-floor(2^64/d)=%v gives %v",
 		s.Addr, s.Prev, d, nonce, code, work, work, refThreshold(d), ref)
+	if code && !ref {
+		tgt := pow.VerifC12TargetByDifficulty(d)
+		what += fmt.Sprintf("; the verifier's own target for this difficulty is %d; vm.DifficultyToPlasma(%d) = %d plasma is granted for the claim (see counter acct_accepted_with_unproven_pow for whole blocks accepted this way)",
+			binary.LittleEndian.Uint64(tgt[:]), d, vm.DifficultyToPlasma(d))
+	}
 	key := ""
 	switch {
 	case code && !ref && d >= 1<<63:
@@ -222,7 +232,7 @@ func powMismatch(r *xs.Result, si int, s *powSubject, d, nonce uint64, code, ref
 	default:
 		key = "C12:pow:difficulty<2^63:valid-nonce-rejected"
 	}
-	r.Violate(key, what, powReplay{Part: "pow", D: d, Nonce: nonce, Subj: si})
+	r.Violate(key, what, mkPowReplay(d, nonce, si))
 }
 
 // powOne runs everything for one difficulty.
@@ -242,7 +252,7 @@ func powOne(r *xs.Result, subs []*powSubject, d uint64, searchMax uint64) {
 				key = "C12:pow:difficulty>=2^63:target-above-reference"
 			}
 		}
-		r.Violate(key, what, powReplay{Part: "pow", D: d, Subj: 0})
+		r.Violate(key, what, mkPowReplay(d, 0, 0))
 	}
 	for _, x := range boundaryWorks(refT) {
 		got := pow.VerifC12GreaterDifficulty(le8(x), le8(refT))
@@ -250,7 +260,7 @@ func powOne(r *xs.Result, subs []*powSubject, d uint64, searchMax uint64) {
 		r.Count("pow_compare_evaluations", 1)
 		if got != want {
 			r.Violate("C12:pow:threshold-comparison-wrong", fmt.Sprintf("pow.greaterDifficulty(work=0x%016x, target=0x%016x) = %v, want %v (difficulty %d)", x, refT, got, want, d),
-				powReplay{Part: "pow", D: d, Subj: 0})
+				mkPowReplay(d, 0, 0))
 		}
 	}
 	// (2) every enumerated nonce through the public entry point
@@ -389,16 +399,16 @@ func convDifficultyRange(r *xs.Result, lo, hi uint64) {
 
 func convCheck(r *xs.Result, d, got, want, prev uint64) {
 	if got != want {
-		r.Violate("C12:conv:DifficultyToPlasma-differs-from-reference", fmt.Sprintf("vm.DifficultyToPlasma(%d) = %d, reference min(floor(d/1500), 94500) = %d", d, got, want), map[string]interface{}{"part": "conv", "d": d})
+		r.Violate("C12:conv:DifficultyToPlasma-differs-from-reference", fmt.Sprintf("vm.DifficultyToPlasma(%d) = %d, reference min(floor(d/1500), 94500) = %d", d, got, want), map[string]interface{}{"part": "conv", "d": fmt.Sprint(d)})
 	}
 	if got < prev {
-		r.Violate("C12:conv:DifficultyToPlasma-not-monotone", fmt.Sprintf("vm.DifficultyToPlasma(%d) = %d < value at %d-1 = %d", d, got, d, prev), map[string]interface{}{"part": "conv", "d": d})
+		r.Violate("C12:conv:DifficultyToPlasma-not-monotone", fmt.Sprintf("vm.DifficultyToPlasma(%d) = %d < value at %d-1 = %d", d, got, d, prev), map[string]interface{}{"part": "conv", "d": fmt.Sprint(d)})
 	}
 	if got > refMaxPowPlasma {
-		r.Violate("C12:conv:DifficultyToPlasma-above-cap", fmt.Sprintf("vm.DifficultyToPlasma(%d) = %d > 94500", d, got), map[string]interface{}{"part": "conv", "d": d})
+		r.Violate("C12:conv:DifficultyToPlasma-above-cap", fmt.Sprintf("vm.DifficultyToPlasma(%d) = %d > 94500", d, got), map[string]interface{}{"part": "conv", "d": fmt.Sprint(d)})
 	}
 	if d == 0 && got != 0 {
-		r.Violate("C12:conv:DifficultyToPlasma-nonzero-at-zero", fmt.Sprintf("vm.DifficultyToPlasma(0) = %d", got), map[string]interface{}{"part": "conv", "d": d})
+		r.Violate("C12:conv:DifficultyToPlasma-nonzero-at-zero", fmt.Sprintf("vm.DifficultyToPlasma(0) = %d", got), map[string]interface{}{"part": "conv", "d": fmt.Sprint(d)})
 	}
 }
 
